@@ -287,3 +287,19 @@ def t_numpy_more(u):
     r = np.sort(np.array([3.0, 1.0]))[0] + np.argsort(np.array([3.0, 1.0, 2.0]))[0]
     return (b.sum() + 10 * c.sum() + 1000 * d.sum() + 10000 * e[-1] + 100000 * f[1] + 10000000 * g.sum() + h.sum() + k.shape[0] + m + n + o + p.sum() + q[0] + r) * u
 
+
+
+def t_numpy_vectorised(u):
+    """Idioms of a vectorising refactoring: fromiter + reshape columns, matmul of a column slice, stack on the last axis, Ellipsis
+    indexing, a ufunc over an integer range (scipy.special.binom), where on a parity mask."""
+    from scipy.special import binom
+
+    col = np.fromiter((k * k for k in range(1, 4)), dtype=float).reshape(-1, 1)  # [[1], [4], [9]]
+    proj = np.array([[1.0, 2.0], [0.0, 1.0], [3.0, 0.0]])
+    v = col[:, 0] @ proj  # [28, 6]
+    ve = np.stack((np.array([1.0, 2.0]), np.array([3.0, 4.0])), axis=-1)  # [[1, 3], [2, 4]]
+    m = np.array([[1.0, 1.0], [0.0, 2.0]]) @ ve  # [[3, 7], [4, 8]]
+    js = np.arange(4)
+    signed = np.where(js % 2 == 0, 1.0, -1.0) * binom(3, js)  # [1, -3, 3, -1]
+    return (v[0] + 10 * v[1] + 100 * m[..., 0].sum() + 1000 * m[..., 1].sum() + 10000 * (signed * np.array([1.0, 2.0, 3.0, 4.0])).sum()
+            + 100000 * len(js.tolist())) * u
